@@ -12,7 +12,7 @@ func vInRange(n proto.ChannelNumber) bool { return vAnd(n >= 0x4000, n <= 0x7FFF
 
 // Constructed pre-state (two real AddChannelBind calls from the real constructor), then an arbitrary third.
 //
-//verif:props=C08,C07,C01 bounds="all 2^16 channel numbers x3; IPv4/IPv6 peers with all ports; table of <=2 prior bindings built by real calls"
+//verif:props=C08,C07,C01 bounds="all 2^16 channel numbers x3; IPv4/IPv6 peers with all ports; table of <=2 (quick) / <=3 (thorough) prior bindings built by real calls"
 func VerifHarness_C08_bind_step() {
 	a, _, _ := VNewAlloc(nil)
 	log := &VLogger{}
@@ -28,6 +28,9 @@ func VerifHarness_C08_bind_step() {
 	vAssertIf(vAnd(vInRange(n2), vAnd(e2 != nil, n1 == n2)), e2 == ErrSameChannelDifferentPeer, "C08.same_channel_other_peer_error")
 	vAssertIf(vAnd(vInRange(n2), vAnd(e2 != nil, n1 != n2)), e2 == ErrSamePeerDifferentChannel, "C08.same_peer_other_channel_error")
 	vAssertIf(!vInRange(n2), e2 == proto.ErrInvalidChannelNumber, "C08.out_of_range_number_error")
+	if vTier() > 0 { // thorough: one more prior binding before the arbitrary bind
+		_ = a.AddChannelBind(NewChannelBind(proto.ChannelNumber(vU16()), VUDPAddr(), log), 600e9, 300e9)
+	}
 	len2 := len(a.channelBindings)
 	// third, arbitrary bind against the constructed table
 	nPerm2 := len(a.permissions)
@@ -63,6 +66,6 @@ func VerifHarness_C08_bind_step() {
 	}
 	vCover(e3 == ErrSamePeerDifferentChannel, "C08.cover_same_peer_conflict")
 	vCover(e3 == ErrSameChannelDifferentPeer, "C08.cover_same_channel_conflict")
-	vCover(len(a.channelBindings) == 3, "C08.cover_three_bindings")
+	vCover(len(a.channelBindings) >= 3, "C08.cover_three_bindings")
 	vReach("end")
 }
